@@ -31,6 +31,9 @@ import MdIt.Lemmas.PipelineH
 import MdIt.Lemmas.PipelineHGeo
 import MdIt.Lemmas.MemoSafeLamDoc
 import MdIt.Model.PipelineH
+import MdIt.Lemmas.PipelineHLen
+import MdIt.Lemmas.PipelineHShape
+import MdIt.Props.C14Doc
 
 namespace MdIt.PipelineH
 open MdIt.Pipeline
@@ -775,5 +778,667 @@ example : (match parseDocH (exCfgH false 100) "a*<b>*c".toList with
   decide +kernel
 
 end examples
+
+
+/-! # Follow-up: source-only flat totality, C14 and C05 (root) with the html plugin -/
+
+/-! ## (c'), follow-up: `doc_totalH_flat` with hypotheses on the SOURCE only -/
+
+/-- **(c) `doc_totalH_flat_src`** — `doc_totalH_flat` without its residual hypothesis: every configuration
+    with the paragraph rule, raw HTML on (block and / or inline rule anywhere), an inline chain without the
+    link and the image rule, emphasis markers single bytes, `max_nesting ≤ 2^30`, sourcepos on or off: EVERY
+    tab-free source with `4 * |src| + 8 < 2^31` parses and renders in both serializers without panic.
+    (The content of every placeholder is no longer than the source: `BlockH.parseBlocksH_content_len`.) -/
+theorem doc_totalH_flat_src (cfg : DocCfgH) (src : List Char)
+    (hfl : InlineH.RuleIdH.base .link ∉ cfg.inlineChain ∧ InlineH.RuleIdH.base .image ∉ cfg.inlineChain)
+    (hsz : ∀ mk csw, InlineH.RuleIdH.base (.emph mk csw) ∈ cfg.inlineChain → mk.utf8Size = 1)
+    (hpara : BlockH.hasParaH cfg.blockChain = true) (hmn : cfg.maxNesting ≤ 1073741824)
+    (hsmall : 4 * Lines.byteLen src + 8 < 2147483648) (htab : '\t' ∉ src) :
+    (∃ t, parseDocH cfg src = .ok t) ∧ ∀ x, ∃ html, renderDocH x cfg src = .ok html := by
+  refine doc_totalH_flat cfg src hfl hsz hpara hsmall htab ?_
+  intro root refs hb
+  refine (BlockH.parseBlocksH_content_len cfg.blockCfg src hsmall hpara htab hb).imp ?_
+  intro c _ h
+  rw [C05I.linesLen_eq c] at h
+  show 2 * InlineOps.byteLen c + cfg.maxNesting < 2147483647
+  omega
+
+/-- the content bound itself, at document level -/
+theorem docH_content_len (cfg : DocCfgH) (src : List Char)
+    (hsmall : 4 * Lines.byteLen src + 8 < 2147483648) (hpara : BlockH.hasParaH cfg.blockChain = true)
+    (htab : '\t' ∉ src) {root : Block.BNode} {refs : Refs.RefMap}
+    (hb : BlockH.parseBlocksH cfg.blockCfg src = .ok (root, refs)) :
+    Block.AllInl (fun c _ => Lines.byteLen c ≤ Lines.byteLen src) root :=
+  BlockH.parseBlocksH_content_len cfg.blockCfg src hsmall hpara htab hb
+
+-- non-vacuity: the flat configuration on the example document, every hypothesis by evaluation
+example : (∃ t, parseDocH (exFlatH true 100) exDoc = .ok t) ∧
+    ∀ x, ∃ html, renderDocH x (exFlatH true 100) exDoc = .ok html := by
+  refine doc_totalH_flat_src _ _ (by decide) ?_ (by decide) (by decide) (by decide +kernel) (by decide +kernel)
+  intro mk csw h
+  simp only [exFlatH, List.mem_cons, InlineH.RuleIdH.base.injEq, Inline.RuleId.emph.injEq, reduceCtorEq,
+    false_or, or_false, List.not_mem_nil] at h
+  rcases h with ⟨rfl, _⟩ | ⟨rfl, _⟩ | ⟨rfl, _⟩ <;> decide
+
+/-! ## C14 with html: the parsed tree is well formed -/
+
+theorem spliceNodeG_kind {parse : List Char → InlineOps.Srcmap → Except Inline.Panic (List Inline.Node)}
+    {b : Block.BNode} {t : Node} (h : spliceNodeG parse b = .ok t) : t.kind = .blk b.kind := by
+  obtain ⟨k, r, cs⟩ := b
+  simp only [spliceNodeG] at h
+  split at h
+  · cases h
+  · cases h; rfl
+
+theorem spliceListG_kinds {parse : List Char → InlineOps.Srcmap → Except Inline.Panic (List Inline.Node)} :
+    ∀ (cs : List Block.BNode) (out : List Node),
+    spliceListG parse cs = .ok out → ∀ k' ∈ kinds out,
+      (k'.isInline = true ∧ ∃ c ∈ cs, IsInl c.kind) ∨ (∃ c ∈ cs, k' = .blk c.kind ∧ ¬ IsInl c.kind)
+  | [], out, h => by simp [spliceListG] at h; subst h; simp [kinds]
+  | c :: rest, out, h => by
+    simp only [spliceListG] at h
+    split at h
+    · rename_i content mapping hck
+      split at h
+      · cases h
+      · rename_i ns hns
+        split at h
+        · cases h
+        · rename_i rest' hr
+          cases h
+          intro k' hk'
+          obtain ⟨x, hx, rfl⟩ := mem_kinds.mp hk'
+          rcases List.mem_append.mp hx with h1 | h1
+          · exact .inl ⟨ofInlineList_inline ns x h1, c, by simp, ⟨content, mapping, hck⟩⟩
+          · rcases spliceListG_kinds rest rest' hr x.kind (mem_kinds.mpr ⟨x, h1, rfl⟩) with
+              ⟨hi, c', hc', hci⟩ | ⟨c', hc', hk, hci⟩
+            · exact .inl ⟨hi, c', List.mem_cons_of_mem _ hc', hci⟩
+            · exact .inr ⟨c', List.mem_cons_of_mem _ hc', hk, hci⟩
+    · rename_i hne
+      split at h
+      · cases h
+      · rename_i c' hc
+        split at h
+        · cases h
+        · rename_i rest' hr
+          cases h
+          intro k' hk'
+          obtain ⟨x, hx, rfl⟩ := mem_kinds.mp hk'
+          rcases List.mem_cons.mp hx with rfl | h1
+          · exact .inr ⟨c, by simp, spliceNodeG_kind hc, fun ⟨t, m, e⟩ => hne t m e⟩
+          · rcases spliceListG_kinds rest rest' hr x.kind (mem_kinds.mpr ⟨x, h1, rfl⟩) with
+              ⟨hi, c', hc', hci⟩ | ⟨c', hc', hk, hci⟩
+            · exact .inl ⟨hi, c', List.mem_cons_of_mem _ hc', hci⟩
+            · exact .inr ⟨c', List.mem_cons_of_mem _ hc', hk, hci⟩
+
+theorem spliceListG_nil {parse : List Char → InlineOps.Srcmap → Except Inline.Panic (List Inline.Node)}
+    {out : List Node} (h : spliceListG parse [] = .ok out) : out = [] := by
+  simp [spliceListG] at h; exact h
+
+mutual
+theorem spliceNodeG_wf' {para markers : Bool}
+    {parse : List Char → InlineOps.Srcmap → Except Inline.Panic (List Inline.Node)}
+    (hp : ∀ c m ns, parse c m = .ok ns → ∀ x ∈ ofInlineList ns, Every (LocN para markers false) x)
+    (b : Block.BNode) (hw : Block.WFB para b)
+    (hk : ¬ IsInl b.kind) (t : Node) (h : spliceNodeG parse b = .ok t) :
+    Every (LocN para markers false) t := by
+  match b with
+  | ⟨k, r, cs⟩ =>
+    simp only [spliceNodeG] at h
+    split at h
+    · cases h
+    · rename_i cs' hcs
+      cases h
+      refine .mk _ ?_ (spliceListG_wf hp cs hw.child cs' hcs)
+      exact locK_block hw.at hk (fun e => by subst e; exact congrArg kinds (spliceListG_nil hcs))
+        (spliceListG_kinds cs cs' hcs)
+theorem spliceListG_wf {para markers : Bool}
+    {parse : List Char → InlineOps.Srcmap → Except Inline.Panic (List Inline.Node)}
+    (hp : ∀ c m ns, parse c m = .ok ns → ∀ x ∈ ofInlineList ns, Every (LocN para markers false) x)
+    (cs : List Block.BNode)
+    (hw : ∀ c ∈ cs, Block.WFB para c) (out : List Node) (h : spliceListG parse cs = .ok out) :
+    ∀ c ∈ out, Every (LocN para markers false) c := by
+  match cs with
+  | [] => simp [spliceListG] at h; subst h; simp
+  | c :: rest =>
+    have hrest : ∀ x ∈ rest, Block.WFB para x := fun x hx => hw x (List.mem_cons_of_mem _ hx)
+    simp only [spliceListG] at h
+    split at h
+    · split at h
+      · cases h
+      · rename_i ns hns
+        split at h
+        · cases h
+        · rename_i rest' hr
+          cases h
+          intro x hx
+          rcases List.mem_append.mp hx with h1 | h1
+          · exact hp _ _ ns hns x h1
+          · exact spliceListG_wf hp rest hrest rest' hr x h1
+    · rename_i hne
+      split at h
+      · cases h
+      · rename_i c' hc
+        split at h
+        · cases h
+        · rename_i rest' hr
+          cases h
+          intro x hx
+          rcases List.mem_cons.mp hx with rfl | hx
+          · exact spliceNodeG_wf' hp c (hw c (by simp)) (fun ⟨t, m, e⟩ => hne t m e) _ hc
+          · exact spliceListG_wf hp rest hrest rest' hr x hx
+end
+
+theorem parseInlineH_wf (para : Bool) (cfg : DocCfgH) (refs : Refs.RefMap) (c : List Char) (m : InlineOps.Srcmap)
+    (ns : List Inline.Node) (h : InlineH.parseInlineH (cfg.inlineCfg refs) c m = .ok ns) :
+    ∀ x ∈ ofInlineList ns, Every (LocN para cfg.hasJoin false) x := by
+  have hv := InlineH.parseInlineH_vals (cfg.inlineCfg refs) (valOK_good (cfg.inlineCfg refs).base) h
+  have := ofInlineList_wf (para := para) ns hv
+  rw [hasEmph_inlineCfgH] at this
+  exact this
+
+/-- **`doc_tree_wfH` (C14 with the html plugin).**  For EVERY configuration over the extended enumerations
+    and every source, the tree `parseDocH` returns satisfies the well-formedness predicate of C14
+    (`Pipeline.WF`, `LocK` at every node): `Root` on top only; no `InlineRoot`, no `EmphMarker`; lists hold
+    list items only, items sit under lists only; an inline node has inline children only, a paragraph /
+    heading has inline children only; thematic breaks, code blocks, fences — and HTML BLOCKS, which are
+    encoded as fences — are childless; with the paragraph rule inline nodes — HTML INLINE nodes included —
+    occur only under paragraphs / headings, (tight) list items and inline nodes; with a join pass no empty
+    `Text` and no two adjacent `Text`s in any sibling list. -/
+theorem doc_tree_wfH (cfg : DocCfgH) (src : List Char) (t : Node) (h : parseDocH cfg src = .ok t) :
+    WF (BlockH.hasParaH cfg.blockChain) cfg.hasJoin t := by
+  refine ⟨(parseDocH_final h).2, ?_⟩
+  unfold parseDocH at h
+  split at h
+  · cases h
+  · rename_i root refs hb
+    obtain ⟨hroot, hwf⟩ := BlockH.parseBlocksH_wf hb
+    unfold afterBlocksH at h
+    split at h
+    · cases h
+    · rename_i t0 hs
+      have he0 := spliceNodeG_wf' (parseInlineH_wf _ cfg refs) root hwf
+        (by rw [hroot]; rintro ⟨_, _, e⟩; cases e) t0 hs
+      have hk0 : t0.kind = .blk .root := by rw [spliceNodeG_kind hs, hroot]
+      have h1 : Every (LocN (BlockH.hasParaH cfg.blockChain) false cfg.hasJoin)
+          (if cfg.hasJoin = true then joinNode t0 else t0) := by
+        cases hj : cfg.hasJoin with
+        | true =>
+          rw [hj] at he0
+          simp only [if_true]
+          exact joinNode_wf_aux _ t0 (Nat.le_refl _) he0 (by rw [hk0]; rfl)
+        | false =>
+          rw [hj] at he0
+          simp only [Bool.false_eq_true, if_false]
+          exact he0
+      simp only at h
+      split at h
+      · exact (sourceposNode_wf _ _ h1 h).1
+      · cases h
+        exact h1
+
+/-- is the value an (encoded) `HtmlBlock` -/
+def Kind.isHtmlBlock : Kind → Bool
+  | .blk b => (BlockH.htmlContent? b).isSome
+  | .inl _ => false
+
+/-- is the value an (encoded) `HtmlInline` -/
+def Kind.isHtmlInline : Kind → Bool
+  | .inl v => (InlineH.htmlContent? v).isSome
+  | .blk _ => false
+
+theorem isBlockLeaf_of_htmlBlock {k : Kind} (h : Kind.isHtmlBlock k = true) : k.isBlockLeaf = true := by
+  cases k with
+  | inl v => cases h
+  | blk b =>
+    cases b <;> simp [Kind.isHtmlBlock, BlockH.htmlContent?] at h
+    rfl
+
+theorem isInline_of_htmlInline {k : Kind} (h : Kind.isHtmlInline k = true) : k.isInline = true := by
+  cases k with
+  | inl v => rfl
+  | blk b => cases h
+
+/-- **the html nodes in the tree** (corollary of `doc_tree_wfH`): at every node `n` of the parsed tree —
+    an `HtmlBlock` is childless; an `HtmlBlock` child never sits under an inline node or a paragraph /
+    heading (block positions only); with the paragraph rule an `HtmlInline` child sits under a paragraph /
+    heading, a (tight) list item or an inline node (inline positions only). -/
+theorem doc_html_placesH (cfg : DocCfgH) (src : List Char) (t : Node) (h : parseDocH cfg src = .ok t) :
+    Every (fun n =>
+      (Kind.isHtmlBlock n.kind = true → n.children = []) ∧
+      (∀ c ∈ n.children, Kind.isHtmlBlock c.kind = true → n.kind.isInline = false ∧ n.kind.isTextBlock = false) ∧
+      (BlockH.hasParaH cfg.blockChain = true → ∀ c ∈ n.children, Kind.isHtmlInline c.kind = true →
+        n.kind.isTextBlock = true ∨ n.kind = .blk .listItem ∨ n.kind.isInline = true)) t := by
+  refine (doc_tree_wfH cfg src t h).2.imp ?_
+  intro n hl
+  have hl : LocK _ _ _ n.kind (kinds n.children) := hl
+  refine ⟨?_, ?_, ?_⟩
+  · intro hb
+    have := hl.blockLeaf (isBlockLeaf_of_htmlBlock hb)
+    simpa [kinds] using this
+  · intro c hc hb
+    have hci : c.kind.isInline = false := by
+      cases hk : c.kind with
+      | inl v => rw [hk] at hb; cases hb
+      | blk b => rfl
+    constructor
+    · cases hn : n.kind.isInline with
+      | false => rfl
+      | true =>
+        have := hl.inlineKids hn c.kind (mem_kinds.mpr ⟨c, hc, rfl⟩)
+        rw [hci] at this; cases this
+    · cases hn : n.kind.isTextBlock with
+      | false => rfl
+      | true =>
+        have := hl.textBlockKids hn c.kind (mem_kinds.mpr ⟨c, hc, rfl⟩)
+        rw [hci] at this; cases this
+  · intro hp c hc hi
+    exact hl.inlinePlace hp c.kind (mem_kinds.mpr ⟨c, hc, rfl⟩) (isInline_of_htmlInline hi)
+
+mutual
+theorem spliceNodeG_shape {parse : List Char → InlineOps.Srcmap → Except Inline.Panic (List Inline.Node)}
+    (hp : ∀ c m ns, parse c m = .ok ns → Inline.AllShapeList ns)
+    (b : Block.BNode) (t : Node) (h : spliceNodeG parse b = .ok t) : Every ShapeD t := by
+  match b with
+  | ⟨k, r, cs⟩ =>
+    simp only [spliceNodeG] at h
+    split at h
+    · cases h
+    · rename_i cs' hcs
+      cases h
+      exact .mk _ (shapeD_blk _ _ _ _) (spliceListG_shape hp cs cs' hcs)
+theorem spliceListG_shape {parse : List Char → InlineOps.Srcmap → Except Inline.Panic (List Inline.Node)}
+    (hp : ∀ c m ns, parse c m = .ok ns → Inline.AllShapeList ns)
+    (cs : List Block.BNode) (out : List Node)
+    (h : spliceListG parse cs = .ok out) : ∀ c ∈ out, Every ShapeD c := by
+  match cs with
+  | [] => simp [spliceListG] at h; subst h; simp
+  | c :: rest =>
+    simp only [spliceListG] at h
+    split at h
+    · split at h
+      · cases h
+      · rename_i ns hns
+        split at h
+        · cases h
+        · rename_i rest' hr
+          cases h
+          intro x hx
+          rcases List.mem_append.mp hx with h1 | h1
+          · exact ofInlineList_shape ns (hp _ _ ns hns) x h1
+          · exact spliceListG_shape hp rest rest' hr x h1
+    · split at h
+      · cases h
+      · rename_i c' hc
+        split at h
+        · cases h
+        · rename_i rest' hr
+          cases h
+          intro x hx
+          rcases List.mem_cons.mp hx with rfl | hx
+          · exact spliceNodeG_shape hp c _ hc
+          · exact spliceListG_shape hp rest rest' hr x hx
+end
+
+/-- **`doc_inline_leavesH`**: in the tree `parseDocH` returns, at every node: `Text`, `TextSpecial` — hence
+    `HtmlInline` —, `Softbreak`, `Hardbreak` are childless; `CodeInline` / `Autolink` have exactly one
+    child, a childless non-empty `Text`.  Every configuration with the html plugin, every source. -/
+theorem doc_inline_leavesH (cfg : DocCfgH) (src : List Char) (t : Node) (h : parseDocH cfg src = .ok t) :
+    Every ShapeD t := by
+  unfold parseDocH at h
+  split at h
+  · cases h
+  · rename_i root refs hb
+    unfold afterBlocksH at h
+    split at h
+    · cases h
+    · rename_i t0 hs
+      have he0 := spliceNodeG_shape (fun c m ns hns => InlineH.parseInlineH_shapes _ hns) root t0 hs
+      have h1 : Every ShapeD (if cfg.hasJoin = true then joinNode t0 else t0) := by
+        split
+        · exact joinNode_shape_aux _ t0 (Nat.le_refl _) he0
+        · exact he0
+      simp only at h
+      split at h
+      · exact (sourceposNode_shape _ _ h1 h).1
+      · cases h
+        exact h1
+
+/-- **`doc_tree_wf_fullH` (C14 with the html plugin, complete predicate).**  For every configuration with the
+    paragraph rule and a join pass (an emphasis-like rule), html rules anywhere: every tree `parseDocH` returns
+    satisfies `Pipeline.WFFull` — `WF true true` (no placeholder, `Root` on top only, lists / items, inline
+    nodes in their places, block leaves — html blocks included — childless, no empty `Text`, no two adjacent
+    `Text`s) and `Every ShapeD` (inline leaves — html inline included — childless, `CodeInline` / `Autolink`
+    exactly one non-empty `Text`).  (Without a join pass: `doc_tree_wfH` + `doc_inline_leavesH`; the text
+    normal form then needs `Block.ParaLast` and `Props/C14Doc.doc_text_nf_nojoin` for the ten-rule engine,
+    not lifted.) -/
+theorem doc_tree_wf_fullH (cfg : DocCfgH) (src : List Char) (t : Node) (h : parseDocH cfg src = .ok t)
+    (hp : BlockH.hasParaH cfg.blockChain = true) (hj : cfg.hasJoin = true) : WFFull t := by
+  refine ⟨?_, doc_inline_leavesH cfg src t h⟩
+  have := doc_tree_wfH cfg src t h
+  rw [hp, hj] at this
+  exact this
+
+theorem isInlineLeaf_of_htmlInline {k : Kind} (h : Kind.isHtmlInline k = true) : k.isInlineLeaf = true := by
+  cases k with
+  | blk b => cases h
+  | inl v => cases v <;> simp [Kind.isHtmlInline, InlineH.htmlContent?] at h <;> rfl
+
+/-- **html nodes are leaves**: in every tree `parseDocH` returns a node that decodes as `HtmlBlock` or as
+    `HtmlInline` has no children -/
+theorem doc_html_leavesH (cfg : DocCfgH) (src : List Char) (t : Node) (h : parseDocH cfg src = .ok t) :
+    Every (fun n => (Kind.isHtmlBlock n.kind = true ∨ Kind.isHtmlInline n.kind = true) → n.children = []) t := by
+  refine (every_and (doc_html_placesH cfg src t h) (doc_inline_leavesH cfg src t h)).imp ?_
+  rintro n ⟨⟨h1, _⟩, h2⟩ (hb | hi)
+  · exact h1 hb
+  · exact h2.1 (isInlineLeaf_of_htmlInline hi)
+
+-- non-vacuity: the example document, stock configuration with the html rules (paragraph rule, join pass)
+example : BlockH.hasParaH (exCfgH true 100).blockChain = true ∧ (exCfgH true 100).hasJoin = true ∧
+    (parseDocH (exCfgH true 100) exDoc).toOption.isSome = true := by decide +kernel
+
+/-! ## C05 with html, the cheap part: the root range -/
+
+theorem spliceNodeG_range {parse : List Char → InlineOps.Srcmap → Except Inline.Panic (List Inline.Node)}
+    {b : Block.BNode} {t : Node} (h : spliceNodeG parse b = .ok t) : t.range = b.range := by
+  obtain ⟨k, r, cs⟩ := b
+  simp only [spliceNodeG] at h
+  split at h
+  · cases h
+  · cases h; rfl
+
+theorem sourceposNode_range {src : List Char} {marks : List SourceMap.Mark} {t t' : Node}
+    (h : sourceposNode src marks t = .ok t') : t'.range = t.range := by
+  obtain ⟨k, r, a, cs⟩ := t
+  simp only [sourceposNode] at h
+  split at h
+  · cases h
+  · split at h
+    · cases h
+    · cases h; rfl
+
+theorem parseBlocksH_root_range {cfg : BlockH.CfgH} {src : List Char} {root : Block.BNode} {refs : Refs.RefMap}
+    (h : BlockH.parseBlocksH cfg src = .ok (root, refs)) : root.range = some (0, Lines.byteLen src) := by
+  unfold BlockH.parseBlocksH at h
+  split at h
+  · cases h
+  · simp only [Except.ok.injEq, Prod.mk.injEq] at h
+    obtain ⟨rfl, _⟩ := h
+    rfl
+
+/-- **`docH_root_range`**: the root of every tree `parseDocH` returns covers the whole source, `(0, |src|)` —
+    every configuration with the html plugin, every source -/
+theorem docH_root_range (cfg : DocCfgH) (src : List Char) (t : Node) (h : parseDocH cfg src = .ok t) :
+    t.range = some (0, Lines.byteLen src) := by
+  unfold parseDocH at h
+  split at h
+  · cases h
+  · rename_i root refs hb
+    have hr := parseBlocksH_root_range hb
+    unfold afterBlocksH at h
+    split at h
+    · cases h
+    · rename_i t0 hs
+      have h0 : t0.range = some (0, Lines.byteLen src) := by rw [spliceNodeG_range hs, hr]
+      have h1 : (if cfg.hasJoin = true then joinNode t0 else t0).range = some (0, Lines.byteLen src) := by
+        split
+        · rw [joinNode_eq]; exact h0
+        · exact h0
+      simp only at h
+      split at h
+      · rw [sourceposNode_range h]; exact h1
+      · cases h; exact h1
+
+
+/-! ## C05 with html: every `HtmlBlock` node has a proper range inside the source -/
+
+/-- a node predicate that only reads the value and the range, and holds of every inline node -/
+structure KR (P : Node → Prop) : Prop where
+  congr : ∀ a b : Node, a.kind = b.kind → a.range = b.range → P a → P b
+  inl : ∀ (n : Node) (v : Inline.Val), n.kind = .inl v → P n
+
+theorem KR.text {P : Node → Prop} (h : KR P) {n : Node} (ht : n.isText = true) : P n := by
+  cases hk : n.kind with
+  | blk b => unfold Node.isText at ht; rw [hk] at ht; simp at ht
+  | inl v => exact h.inl n v hk
+
+mutual
+theorem ofInline_kr {P : Node → Prop} (h : KR P) (n : Inline.Node) : Every P (ofInline n) := by
+  match n with
+  | ⟨v, r, cs⟩ =>
+    unfold ofInline
+    exact .mk _ (h.inl _ v rfl) (ofInlineList_kr h cs)
+theorem ofInlineList_kr {P : Node → Prop} (h : KR P) (cs : List Inline.Node) :
+    ∀ c ∈ ofInlineList cs, Every P c := by
+  match cs with
+  | [] => simp [ofInlineList]
+  | c :: r =>
+    intro x hx
+    simp only [ofInlineList, List.mem_cons] at hx
+    rcases hx with rfl | hx
+    · exact ofInline_kr h c
+    · exact ofInlineList_kr h r x hx
+end
+
+theorem mergeLoop_same (cur : Node) (rest : List Node) :
+    ∀ x ∈ mergeLoop cur rest, x.isText = true ∨ x = cur ∨ x ∈ rest := by
+  induction rest generalizing cur with
+  | nil => intro x hx; simp [mergeLoop] at hx; exact .inr (.inl hx)
+  | cons nxt rest ih =>
+    intro x hx
+    simp only [mergeLoop] at hx
+    split at hx
+    · rcases List.mem_cons.mp hx with rfl | hx
+      · exact .inl rfl
+      · rcases ih _ x hx with h | rfl | h
+        · exact .inl h
+        · exact .inl rfl
+        · exact .inr (.inr (List.mem_cons_of_mem _ h))
+    · rcases List.mem_cons.mp hx with rfl | hx
+      · exact .inr (.inl rfl)
+      · rcases ih _ x hx with h | rfl | h
+        · exact .inl h
+        · exact .inr (.inr (by simp))
+        · exact .inr (.inr (List.mem_cons_of_mem _ h))
+
+/-- a child `fragments_join` keeps is a `Text` or is, unchanged, one of the children it was given -/
+theorem fragmentsJoin_same (cs : List Node) : ∀ x ∈ fragmentsJoin cs, x.isText = true ∨ x ∈ cs := by
+  intro x hx
+  unfold fragmentsJoin at hx
+  have hx := (List.mem_filter.mp hx).1
+  have h1 : x.isText = true ∨ x ∈ pass1 cs := by
+    cases hp : pass1 cs with
+    | nil => rw [hp] at hx; simp [mergeAll] at hx
+    | cons c r =>
+      rw [hp] at hx
+      simp only [mergeAll] at hx
+      rcases mergeLoop_same c r x hx with h | rfl | h
+      · exact .inl h
+      · exact .inr (by simp)
+      · exact .inr (List.mem_cons_of_mem _ h)
+  rcases h1 with h | h
+  · exact .inl h
+  · unfold pass1 at h
+    obtain ⟨c, hc, rfl⟩ := List.mem_map.mp h
+    unfold markerToText
+    split
+    · exact .inl rfl
+    · exact .inr hc
+
+theorem joinNode_kr_aux {P : Node → Prop} (hP : KR P) (k : Nat) : ∀ n : Node, nsize n ≤ k → Every P n →
+    Every P (joinNode n) := by
+  induction k with
+  | zero => intro n hn; rw [nsize_eq] at hn; omega
+  | succ k ih =>
+    intro n hn he
+    rw [joinNode_eq, joinList_eq_map]
+    refine .mk _ (hP.congr n _ rfl rfl he.here) ?_
+    intro y hy
+    simp only at hy
+    obtain ⟨x, hx, rfl⟩ := List.mem_map.mp hy
+    obtain ⟨c, hc, hr, _⟩ := fragmentsJoin_mem _ x hx
+    have hec := he.child c hc
+    have hpx : P x := by
+      rcases fragmentsJoin_same _ x hx with ht | hm
+      · exact hP.text ht
+      · exact (he.child x hm).here
+    have hsz : nsize x ≤ k := by
+      have h1 : nsize x = nsize c := by rw [nsize_eq, nsize_eq, hr.1]
+      have h2 := nsize_le_of_mem hc
+      rw [nsize_eq] at hn
+      omega
+    exact ih x hsz (hr.every hpx hec)
+
+mutual
+theorem sourceposNode_kr {P : Node → Prop} (hP : KR P) {src : List Char} {marks : List SourceMap.Mark}
+    (t t' : Node) (he : Every P t) (h : sourceposNode src marks t = .ok t') : Every P t' := by
+  match t with
+  | ⟨k, r, a, cs⟩ =>
+    simp only [sourceposNode] at h
+    split at h
+    · cases h
+    · split at h
+      · cases h
+      · rename_i cs' hcs
+        cases h
+        exact .mk _ (hP.congr ⟨k, r, a, cs⟩ _ rfl rfl he.here) (sourceposList_kr hP cs cs' he.child hcs)
+theorem sourceposList_kr {P : Node → Prop} (hP : KR P) {src : List Char} {marks : List SourceMap.Mark}
+    (cs cs' : List Node) (he : ∀ c ∈ cs, Every P c) (h : sourceposList src marks cs = .ok cs') :
+    ∀ c ∈ cs', Every P c := by
+  match cs with
+  | [] => simp [sourceposList] at h; subst h; simp
+  | c :: r =>
+    simp only [sourceposList] at h
+    split at h
+    · cases h
+    · rename_i c' hc
+      split at h
+      · cases h
+      · rename_i r' hr
+        cases h
+        intro x hx
+        rcases List.mem_cons.mp hx with rfl | hx
+        · exact sourceposNode_kr hP c _ (he c (by simp)) hc
+        · exact sourceposList_kr hP r r' (fun y hy => he y (List.mem_cons_of_mem _ hy)) hr x hx
+end
+
+/-- a block-level node that is no placeholder has a proper range that ends inside the source -/
+def BlkRanged (L : Nat) (n : Node) : Prop :=
+  ∀ b, n.kind = .blk b → (∀ c m, b ≠ .inlineRoot c m) → ∃ x y, n.range = some (x, y) ∧ x ≤ y ∧ y ≤ L
+
+theorem kr_blkRanged (L : Nat) : KR (BlkRanged L) :=
+  ⟨fun a b hk hr h => by unfold BlkRanged at *; rw [← hk, ← hr]; exact h,
+   fun n v hk b hb => by rw [hk] at hb; cases hb⟩
+
+mutual
+theorem spliceNodeG_blkRanged {Pm : Block.InlP} {src : List Char}
+    {parse : List Char → InlineOps.Srcmap → Except Inline.Panic (List Inline.Node)}
+    (b : Block.BNode) (hw : Block.RangedB Pm src b) (t : Node) (h : spliceNodeG parse b = .ok t) :
+    Every (BlkRanged (Lines.byteLen src)) t := by
+  match b with
+  | ⟨k, r, cs⟩ =>
+    simp only [spliceNodeG] at h
+    split at h
+    · cases h
+    · rename_i cs' hcs
+      cases h
+      refine .mk _ ?_ (spliceListG_blkRanged cs hw.child cs' hcs)
+      intro b hb hne
+      simp only [Kind.blk.injEq] at hb
+      subst hb
+      cases r with
+      | none =>
+        have hnone : ∃ c m, k = Block.Kind.inlineRoot c m ∧ cs = [] := by
+          cases hw with
+          | mk _ _ h2 _ => exact h2 rfl
+        obtain ⟨c, m, e, _⟩ := hnone
+        exact absurd e (hne c m)
+      | some ab =>
+        obtain ⟨x, y⟩ := ab
+        obtain ⟨h1, _, h3, _⟩ := hw.at x y rfl
+        exact ⟨x, y, rfl, h1, h3.le⟩
+theorem spliceListG_blkRanged {Pm : Block.InlP} {src : List Char}
+    {parse : List Char → InlineOps.Srcmap → Except Inline.Panic (List Inline.Node)}
+    (cs : List Block.BNode) (hw : ∀ c ∈ cs, Block.RangedB Pm src c) (out : List Node)
+    (h : spliceListG parse cs = .ok out) : ∀ c ∈ out, Every (BlkRanged (Lines.byteLen src)) c := by
+  match cs with
+  | [] => simp [spliceListG] at h; subst h; simp
+  | c :: rest =>
+    have hrest : ∀ x ∈ rest, Block.RangedB Pm src x := fun x hx => hw x (List.mem_cons_of_mem _ hx)
+    simp only [spliceListG] at h
+    split at h
+    · split at h
+      · cases h
+      · rename_i ns hns
+        split at h
+        · cases h
+        · rename_i rest' hr
+          cases h
+          intro x hx
+          rcases List.mem_append.mp hx with h1 | h1
+          · exact ofInlineList_kr (kr_blkRanged _) ns x h1
+          · exact spliceListG_blkRanged rest hrest rest' hr x h1
+    · split at h
+      · cases h
+      · rename_i c' hc
+        split at h
+        · cases h
+        · rename_i rest' hr
+          cases h
+          intro x hx
+          rcases List.mem_cons.mp hx with rfl | hx
+          · exact spliceNodeG_blkRanged c (hw c (by simp)) _ hc
+          · exact spliceListG_blkRanged rest hrest rest' hr x hx
+end
+
+/-- **`docH_block_ranges`**: paragraph rule in the ten-rule chain, `i32` bound of the block side: in the tree
+    `parseDocH` returns EVERY block-level node (html blocks included) has a range `(x, y)` with
+    `x ≤ y ≤ |src|` -/
+theorem docH_block_ranges (cfg : DocCfgH) (src : List Char) (t : Node)
+    (hsmall : 4 * Lines.byteLen src + 8 < 2147483648) (hpara : BlockH.hasParaH cfg.blockChain = true)
+    (h : parseDocH cfg src = .ok t) : Every (BlkRanged (Lines.byteLen src)) t := by
+  unfold parseDocH at h
+  split at h
+  · cases h
+  · rename_i root refs hb
+    have hg := (BlockH.parseBlocksH_placeholder_tables cfg.blockCfg src hsmall hpara hb).1
+    unfold afterBlocksH at h
+    split at h
+    · cases h
+    · rename_i t0 hs
+      have he0 := spliceNodeG_blkRanged root hg t0 hs
+      have h1 : Every (BlkRanged (Lines.byteLen src)) (if cfg.hasJoin = true then joinNode t0 else t0) := by
+        split
+        · exact joinNode_kr_aux (kr_blkRanged _) _ t0 (Nat.le_refl _) he0
+        · exact he0
+      simp only at h
+      split at h
+      · exact sourceposNode_kr (kr_blkRanged _) _ _ h1 h
+      · cases h
+        exact h1
+
+/-- **every `HtmlBlock` node has a range inside the source** (corollary) -/
+theorem docH_html_block_ranges (cfg : DocCfgH) (src : List Char) (t : Node)
+    (hsmall : 4 * Lines.byteLen src + 8 < 2147483648) (hpara : BlockH.hasParaH cfg.blockChain = true)
+    (h : parseDocH cfg src = .ok t) :
+    Every (fun n => Kind.isHtmlBlock n.kind = true →
+      ∃ x y, n.range = some (x, y) ∧ x ≤ y ∧ y ≤ Lines.byteLen src) t := by
+  refine (docH_block_ranges cfg src t hsmall hpara h).imp ?_
+  intro n hn hb
+  cases hk : n.kind with
+  | inl v => rw [hk] at hb; cases hb
+  | blk b =>
+    refine hn b hk ?_
+    intro c m e
+    rw [hk, e] at hb
+    simp [Kind.isHtmlBlock, BlockH.htmlContent?] at hb
+
+/-
+  OPEN (C05 with html, not attempted): the range of an `HtmlInline` node inside the source.  `Html.htmlInline_node`
+  gives the range as the two ends translated by `get_source_pos_for` and `start ≤ end` on monotone tables; the
+  bound `end ≤ |src|` needs `C05I.UpToAll` of the placeholder's table (available: `parseBlocksH_placeholder_tables`)
+  carried through the inline tokenizer as a node-level invariant (`Inline.ranges_induction` is about the constants
+  `tokLoop` / `skipToken`; to be re-proved over `tokLoopH` as the value and shape invariants were here).
+-/
 
 end MdIt.PipelineH
